@@ -57,7 +57,7 @@ def run(pid, tier, seed, replay=None):
                  "input": c, "events": [{"e": what, "what": "WorkerCrash"}]}
         trs.append(r)
     if pid == "C05":       # call histories: solve, then extend the same Model object, then solve again
-        hc = [drv.gen_history_case(rng) for _ in range(n // 3)]
+        hc = [drv.gen_history_case(rng, aux=i % 2 == 0) for i in range(n // 3)]
         for c, r in zip(hc, run_tasks("cp", "run_solve_history", hc, timeout=60)):
             if isinstance(r, dict) and r.get("unsupported"):
                 unsupported += 1
